@@ -510,7 +510,7 @@ def mon_code(c, r, a, fails):
     mr = int(w[3])
     ops, outs = w[4:], r.split()[1:-1]
     d = auxd(a)
-    succ, failed, touched = {}, {}, {}
+    succ, failed, touched, codeval = {}, {}, {}, {}
     clock, life = 0, int(w[2])
     for i, (op, o) in enumerate(zip(ops, outs)):
         f = op.split(":")
@@ -519,7 +519,16 @@ def mon_code(c, r, a, fails):
         elif f[0] == "G":
             if o.startswith("G:ok"):
                 k = sanitize(unhx(f[1]))
-                succ[k], failed[k], touched[k] = 0, 0, clock
+                val = d.get("g%d" % i, [None])[0]
+                pending = k in succ and succ[k] == 0 and failed[k] < mr and clock - touched[k] <= life
+                if pending and val is not None and val == codeval.get(k) and len(val) >= 8:
+                    # the SAME code value handed out again while it is still pending: it is one code, so the wrong
+                    # guesses already made against it keep counting ("no longer after the configured number of wrong
+                    # guesses"); a fresh code of >= 4 digits coincides with the pending one with probability <= 1e-4
+                    touched[k] = clock
+                else:
+                    succ[k], failed[k], touched[k] = 0, 0, clock
+                codeval[k] = val
                 if o != "G:ok:%s:1:1" % w[1]:
                     fails.append(("code-format", c, "op %d: code is not %s decimal digits stored with counter 0" % (i, w[1])))
         elif f[0] in ("A", "S"):
